@@ -276,11 +276,11 @@ def write_replay(pid, v, mod):
     return p
 
 
-def confirm_fresh(pid, path):
+def confirm_fresh(pid, path, tier='quick'):
     """Re-execute the failing case in a fresh process; it must fail identically."""
-    env = dict(os.environ)
+    env = dict(os.environ, VERIF_TIER=tier)
     r = subprocess.run(
-        [str(ROOT / 'check'), pid, '--replay', str(path)], capture_output=True, text=True, env=env
+        [str(ROOT / 'check'), pid, '--tier', tier, '--replay', str(path)], capture_output=True, text=True, env=env
     )
     return r.returncode == 1, r.stdout[-2000:] + r.stderr[-2000:]
 
@@ -325,7 +325,7 @@ def finish(pid, mod, tier, seed, cov, violations, wall, confirm=True):
             if not confirm:
                 chosen = (v, p)
                 break
-            ok, out = confirm_fresh(pid, p)
+            ok, out = confirm_fresh(pid, p, tier)
             if ok:
                 chosen = (v, p)
                 break
